@@ -658,6 +658,11 @@ def fam_pos(tier, seed):
             # an enum override may only be @position if all its variants are
             g = Grammar("pos_%04d" % len(out), rules, root="S", maxlen=maxlen,
                         meta={"shape": name + "/" + "+".join(sorted(flat))})
+            if name == "enum_override" and "O" in flat:
+                # the generated PegPosition glue of the enum override: position() must be the matched variant's range
+                g.meta["flags"] = "observe"
+                g.meta["user_rs"] = ("pub fn observe(v: &S) -> String { use peginator::PegPosition; "
+                                     "format!(\"{:?};{:?}\", v.o.position(), v.o2.position()) }")
             g.alpha = alpha
             if well_formed(g):
                 out.append(g)
